@@ -7,6 +7,7 @@ From Coq Require Import String.
 From Coq Require Import List Bool Arith NArith ZArith.
 Import ListNotations.
 Require Import Alloc Str IpText Rx RxFacts G_rx G_juniper TextModel TextProofs ValueProofs Findings.
+Require Rx RxSub RxLang G_rx HashToken.
 
 Theorem C07_allocator_outputs_independent_of_secret_content :
   forall (key : Type) (keq : key -> key -> bool), (forall a b, keq a b = true <-> a = b) ->
@@ -49,9 +50,30 @@ Theorem C07_first_of_two_communities_on_a_line_survives_refuted :
                  out = lit "snmp-server community FIRSTsecret RO ; snmp-server community netconanRemoved0 RW".
 Proof. exact first_of_two_communities_survives_refuted. Qed.
 
+
+(* "a standalone $1$ / $9$ hash-shaped token ... is replaced whatever keywords surround it": for EVERY line, a token made of $9$ (resp. $1$) and at least one
+   character that is neither white space, a semicolon nor a double quote, standing at the line start or after a character that is neither a word character
+   nor a hyphen, makes the corresponding catch-all pattern of the GENERATED table match somewhere on the line (model/HashToken.v, through the engine's
+   completeness for anchor-free patterns, lib/RxLang.lang_ms) -- no keyword is needed, so the line is claimed by that pattern group at the latest. *)
+Theorem C07_juniper_shaped_token_makes_the_catch_all_pattern_match :
+  forall (s body : list Rx.chr) (i : nat),
+  body <> [] -> Forall (fun x => Rx.in_cset x G_rx.cs73 = true) body -> RxLang.occ s ([36; 57; 36]%N ++ body) i ->
+  (i = 0%nat \/ ((1 <= i)%nat /\ exists x, nth_error s (i - 1) = Some x /\ Rx.in_cset x G_rx.cs21 = true)) ->
+  RxSub.search s G_rx.PWD_RX_53_0 <> None.
+Proof. exact HashToken.juniper_shaped_token_makes_the_catch_all_match. Qed.
+
+Theorem C07_md5_crypt_shaped_token_makes_the_catch_all_pattern_match :
+  forall (s body : list Rx.chr) (i : nat),
+  body <> [] -> Forall (fun x => Rx.in_cset x G_rx.cs73 = true) body -> RxLang.occ s ([36; 49; 36]%N ++ body) i ->
+  (i = 0%nat \/ ((1 <= i)%nat /\ exists x, nth_error s (i - 1) = Some x /\ Rx.in_cset x G_rx.cs21 = true)) ->
+  RxSub.search s G_rx.PWD_RX_54_0 <> None.
+Proof. exact HashToken.md5_crypt_shaped_token_makes_the_catch_all_match. Qed.
+
 Print Assumptions C07_numeric_password_before_a_word_survives_refuted.
 Print Assumptions C07_hash_after_a_captured_reserved_word_survives_refuted.
 Print Assumptions C07_allocator_outputs_independent_of_secret_content.
 Print Assumptions C07_fresh_replacement_depends_only_on_class_and_counter.
 Print Assumptions C07_generated_line_patterns_consume_text.
 Print Assumptions C07_first_of_two_communities_on_a_line_survives_refuted.
+Print Assumptions C07_juniper_shaped_token_makes_the_catch_all_pattern_match.
+Print Assumptions C07_md5_crypt_shaped_token_makes_the_catch_all_pattern_match.
